@@ -343,11 +343,14 @@ def pkgScan (fs : FS) : List Path → Option Path → Option Path
 
 def pkgTop (fs : FS) (path : Path) : Option Path := pkgScan fs (parentsOf path) none
 
-/-- parts of `path.with_suffix("").relative_to(base)`. -/
-def relStem (base path : Path) : List String :=
-  match (path.drop base.length).getLast? with
-  | some l => (path.drop base.length).dropLast ++ [fileStem l]
+/-- `path.with_suffix("")`. -/
+def withStem (path : Path) : Path :=
+  match path.getLast? with
+  | some l => path.dropLast ++ [fileStem l]
   | none => []
+
+/-- parts of `path.with_suffix("").relative_to(base)`. -/
+def relStem (base path : Path) : List String := (withStem path).drop base.length
 
 /-- module name of `_resolve_pkg_root_and_module_name`. -/
 def pkgKey (pkgRoot path : Path) : ModKey :=
@@ -356,7 +359,7 @@ def pkgKey (pkgRoot path : Path) : ModKey :=
 
 /-- `_module_name_from_path`. -/
 def pathKey (root path : Path) : ModKey :=
-  let parts := if root.isPrefixOf path then relStem root path else relStem [] path
+  let parts := if root.isPrefixOf (withStem path) then relStem root path else withStem path
   (if decide (2 ≤ parts.length) && parts.getLast? == some "__init__" then parts.dropLast else parts).map dotToUnderscore
 
 inductive SpecSrc where
